@@ -108,4 +108,7 @@ def main(tier):
     import tailguard, earlypass
     rep.attempt(tailguard.check, rep, 'MAD', {'ec_mad', 'ec_mul'}, 32, 5)
     rep.attempt(earlypass.check, rep, 'MAD', {'ec_mad', 'ec_mul'}, 2)
+    import samecell
+    rep.attempt(samecell.check, rep, 'MAD', {'ec_mad'}, ['SRC'], ['DESTARR[]'], 190, typed=True)
+    rep.attempt(samecell.check, rep, 'MUL', {'ec_mul'}, ['SRC'], ['DEST'], 4, typed=True)
     return rep.finish()
